@@ -62,6 +62,29 @@ def gen_history(rng, length):
     return ops
 
 
+def gen_mpi_history(rng):
+    """family B: half of the histories follow the 'shrink / failed save' templates that need several
+    tasks to go wrong (longer list, then a shorter list of either class saved with overwrite on >=2
+    tasks, load; then a save without overwrite that must fail as a whole, load again)"""
+    if rng.integers(0, 2):
+        return gen_history(rng, int(rng.integers(3, 6))), None
+    multi = bool(rng.integers(0, 2))
+
+    def sv(kind, n, ow):
+        return dict(kind=kind, n=n, multi=multi, overwrite=ow, vseed=int(rng.integers(0, 2 ** 31)),
+                    scale=1.0, offset=0.0)
+    k1 = ("save_plain", "save_residual")[int(rng.integers(0, 2))]
+    k2 = k1 if rng.integers(0, 3) else ("save_plain", "save_residual")[int(rng.integers(0, 2))]
+    n1 = int(rng.integers(3, 7))
+    n2 = int(rng.integers(1, n1))
+    ld = lambda k: dict(kind="load_plain" if k == "save_plain" else "load_residual")  # noqa
+    ops = [sv(k1, n1, True), sv(k2, n2, True), ld(k2),
+           sv(k2, int(rng.integers(n2 + 1, 8)), False), ld(k2)]
+    sizes = [int(rng.integers(0, 5)), int(rng.integers(2, 5)), int(rng.integers(0, 5)),
+             int(rng.integers(2, 5)), int(rng.integers(0, 5))]
+    return ops, sizes
+
+
 def expected_samples(ift, op):
     from vf.simcomm.workloads import make_samples, fb
     mean, items, neg = make_samples(ift, op)
@@ -117,7 +140,7 @@ def stats_ok(got_m, got_v, vals, what, ck, key_prefix):
                          f"tol {tol:.3g})", n=len(vals))
 
 
-def run_history(ck, ift, ops, base, mpi, rng, wd):
+def run_history(ck, ift, ops, base, mpi, rng, wd, sizes=None):
     """executes the history; judges each op against the reference model"""
     from vf.simcomm import workloads as W
     from vf.simcomm import proc
@@ -132,7 +155,7 @@ def run_history(ck, ift, ops, base, mpi, rng, wd):
     for j, op in enumerate(ops):
         size = 0
         if mpi:
-            size = int(rng.integers(0, 5))
+            size = int(rng.integers(0, 5)) if sizes is None else sizes[j]
         params = dict(op=op, base=base)
         if mpi:
             w = proc.run_world(size, "sl_op", params, os.path.join(wd, f"op{j}"), timeout=300)
@@ -313,9 +336,9 @@ def case(ck, i):
     try:
         fam = i % 14
         if fam == 0:          # family B: multi-process history (expensive)
-            ops = gen_history(rng, int(rng.integers(3, 6)))
+            ops, sizes = gen_mpi_history(rng)
             ck.note(dict(family="mpi", ops=ops), klass="mpi")
-            r = run_history(ck, ift, ops, os.path.join(wd, "base"), True, rng, wd)
+            r = run_history(ck, ift, ops, os.path.join(wd, "base"), True, rng, wd, sizes)
             if isinstance(r, tuple):
                 hist, shr, szc = r
                 ck.note(dict(family="mpi", history=hist), nontrivial=(shr or szc), klass="mpi")
